@@ -6,7 +6,10 @@ import re, sys, os, subprocess, tempfile
 ROOT = os.path.dirname(os.path.dirname(os.path.abspath(__file__)))
 COQ = os.path.join(ROOT, 'coq')
 
+BASE_IMPORTS = ['Base.Prelude', 'Base.Prog', 'Model.Io', 'Model.Tables', 'Model.LzBuffer', 'Model.RangeDec', 'Model.Lzma']
+
 def coq_statements(imports, lemmas):
+    imports = BASE_IMPORTS + [i for i in imports if i not in BASE_IMPORTS]
     src = 'From LZ Require Import %s.\nSet Printing Width 118.\nSet Printing Depth 1000.\n' % ' '.join(imports)
     for l in lemmas:
         src += 'Check @%s.\n' % l
